@@ -27,7 +27,7 @@ ASSUMPTIONS = [
 ]
 TIERS = {
     "quick": {"shards": 16, "cases": 800, "calls": 40, "timeout": 300},
-    "thorough": {"shards": 16, "cases": 40000, "calls": 50, "timeout": 3000},
+    "thorough": {"shards": 16, "cases": 200000, "calls": 50, "timeout": 3000},
 }
 FLOORS = {
     "quick": {"counts": {"shutdown_ops_checked": 10000, "checked_with_tool_running": 2500,
